@@ -2,7 +2,7 @@
    Tags [FULL]/[PARTIAL]/[REFUTED] are read by bin/check. *)
 From Coq Require Import List NArith ZArith Arith Bool.
 From BLB Require Import Lib.GF256 Lib.GF256Laws Lib.RS Lib.RSLinAlg Lib.RSMds Lib.RSProofs C13.Model
-     C13.ProofsPack C13.ProofsRead C13.ProofsRecon C13.ProofsIndexMap C13.ProofsBlob C13.ProofsState C13.ProofsDegraded.
+     C13.ProofsPack C13.ProofsRead C13.ProofsRecon C13.ProofsIndexMap C13.ProofsBlob C13.ProofsState C13.ProofsDegraded C13.ProofsIds.
 Import ListNotations.
 Open Scope nat_scope.
 
@@ -376,3 +376,14 @@ Theorem rs_readat_exact_or_fail_closed :
     (snd (fst R) = 2%N /\ (fst (fst R) <= fst (fst P))%N /\ snd R = firstn (N.to_nat (fst (fst R))) (snd P)).
 Proof. exact read_at_exact_or_fail_closed_lemma. Qed.
 Print Assumptions rs_readat_exact_or_fail_closed.
+
+(* [FULL] piece_ids_disjoint_across_stripes: in the chunk-id allocation of a packing round (packChunks: one allocated
+   base, stripe i works on base plus i times n+m, piece j of a stripe has the stripe base plus j) the piece ids of two
+   different stripes have no id in common, for every base, all n and m including 0, and any stripe indices; hence the ids
+   of a round with any number of stripes are pairwise distinct and lie inside the allocated block *)
+Theorem piece_ids_disjoint_across_stripes :
+  (forall base n m i j x, i <> j -> In x (piece_ids base n m i) -> ~ In x (piece_ids base n m j)) /\
+  (forall base n m k, NoDup (round_ids base n m k)) /\
+  (forall base n m k x, In x (round_ids base n m k) -> (base <= x < base + N.of_nat (k * (n + m)))%N).
+Proof. split; [exact piece_ids_disjoint_lemma | split; [exact round_ids_NoDup_lemma | exact round_ids_in_block_lemma]]. Qed.
+Print Assumptions piece_ids_disjoint_across_stripes.
